@@ -547,8 +547,37 @@ def after_infinity(ctx, n):
                            'expected every step to be executed' % (k, steps, log), family='after-infinity')
 
 
+def long_time_steps(ctx, n):
+    """`run()` ends at quiescence and not before, however much happens within ONE time step: activities that take a very
+    large but finite number of turns at one virtual time (a polling loop over instants, a cascade of flag settings) are run
+    to completion; run() returns normally and the clock has not moved"""
+    import usim
+    from usim import time
+    from harness import watch
+    for _ in range(n):
+        turns = ctx.rng.choice([100500, 150000, 210000])
+        k = ctx.rng.choice([1, 2])
+        case = {'long_time_step': dict(turns=turns, activities=k)}
+        done = []
+
+        async def spinner(i):
+            for _j in range(turns // k):
+                await usim.instant
+            done.append((i, time.now))
+        try:
+            watch.run(*[spinner(i) for i in range(k)], seconds=60)
+        except BaseException as e:   # noqa
+            ctx.fail(case, '%d activities taking %d turns within one time step: run() raised %r' % (k, turns, e), family='long-time-steps')
+            continue
+        ctx.count(case, nontrivial=True)
+        ctx.bump('family:long-time-steps')
+        if sorted(done) != [(i, 0) for i in range(k)]:
+            ctx.fail(case, '%d activities taking %d turns within one time step: finished %r' % (k, turns, done), family='long-time-steps')
+
+
 def run(ctx):
     after_infinity(ctx, ctx.n(20, 200))
+    long_time_steps(ctx, ctx.n(2, 6))
     choreographed_threads(ctx, ctx.n(3, 25))
     root_exceptions(ctx, ctx.n(60, 800))
     # simulations one after the other / nested that share condition objects do not influence each other (family of C01)
